@@ -91,14 +91,17 @@ NonceOk(g, c)    == c.nonce = NonceOf(g, c.i, c.id, c.t)
 
 \* the issuer must confirm: genuinely signed over network/issuer/identity/topic/current nonce/data
 \* by a key currently allowed for the topic, not expired, not revoked
-Good(g, c) == /\ c.def = None /\ KeyAllowed(g, c) /\ NonceOk(g, c)
+\* ("nonce" is not a lasting corruption: a claim signed for the next nonce becomes genuine once the
+\*  issuer bumps the nonce; the nonce comparison below decides)
+Sound(c) == c.def \in {None, "nonce"}
+Good(g, c) == /\ Sound(c) /\ KeyAllowed(g, c) /\ NonceOk(g, c)
               /\ g.now < c.until /\ ~Revoked(g, c)
 \* the issuer must refuse.  At now = until the two documents of the library disagree
 \* ("expires after valid_until" / "timestamp >= valid_until"): left open.
-Bad(g, c)  == \/ c.def # None \/ ~KeyAllowed(g, c) \/ ~NonceOk(g, c)
+Bad(g, c)  == \/ ~Sound(c) \/ ~KeyAllowed(g, c) \/ ~NonceOk(g, c)
               \/ g.now > c.until \/ Revoked(g, c)
 
-WhyBad(g, c) == IF c.def # None THEN c.def
+WhyBad(g, c) == IF ~Sound(c) THEN c.def
                 ELSE IF ~KeyAllowed(g, c) THEN "key_not_allowed"
                 ELSE IF ~NonceOk(g, c) THEN "nonce_bumped"
                 ELSE IF Revoked(g, c) THEN "revoked"
@@ -131,16 +134,17 @@ SlotOk(h, ev, x) ==
   THEN LET c == ClaimAt(h, x[1], x[2], x[3]) IN (Good(h, c) => v = "yes") /\ (Bad(h, c) => v # "yes")
   ELSE v # "yes"
 
-Ante(m, g, ev) ==
-  LET h == GNext(g, ev)  o == ev.op IN
+\* (AnteH / ConsH take the post-state h = GNext(g, ev) so that it is computed once per step)
+AnteH(m, g, h, ev) ==
+  LET o == ev.op IN
   CASE m = "C15_verify_sound"    -> \E a \in Accts(ev) : Ver(ev, a)
     [] m = "C15_verify_complete" -> h.topics # {} /\ \E a \in Accts(ev) : Sat(h, ev, a)
     [] m = "C15_no_topics"       -> h.topics = {} /\ \E a \in Accts(ev) : h.ident[a] # None
     [] m = "C15_issuer_iff"      -> h.claims # {}
     [] m = "C15_add_claim"       -> o.op = "add_claim" /\ ev.res = "ok" /\ o.id \in g.lib
 
-Cons(m, g, ev) ==
-  LET h == GNext(g, ev)  o == ev.op  g1 == [g EXCEPT !.now = ev.now] IN
+ConsH(m, g, h, ev) ==
+  LET o == ev.op  g1 == [g EXCEPT !.now = ev.now] IN
   CASE m = "C15_verify_sound"    -> \A a \in Accts(ev) : Ver(ev, a) => Sat(h, ev, a)
     [] m = "C15_verify_complete" -> \A a \in Accts(ev) : Sat(h, ev, a) => Ver(ev, a)
     \* zero required topics: every account with a registered identity verifies (vacuous truth);
@@ -150,8 +154,10 @@ Cons(m, g, ev) ==
     \* the library's add_claim stores only what the issuer confirms at that moment
     [] m = "C15_add_claim"       -> ~Bad(g1, NewClaim(g1, o))
 
+Ante(m, g, ev) == AnteH(m, g, GNext(g, ev), ev)
+Cons(m, g, ev) == ConsH(m, g, GNext(g, ev), ev)
 Holds(m, g, ev) == Ante(m, g, ev) => Cons(m, g, ev)
-Failing(g, ev) == {m \in Monitors : ~Holds(m, g, ev)}
+Failing(g, ev) == LET h == GNext(g, ev) IN {m \in Monitors : AnteH(m, g, h, ev) /\ ~ConsH(m, g, h, ev)}
 
 \* classification (known findings / reports)
 Key(m, g, ev) ==
